@@ -19,6 +19,7 @@ func init() {
 		Assumptions: []string{
 			"external functions are deterministic functions of (symbol, per-session call index, input)",
 			"comparison stops at the first request that stops or fails (Exec after stop is documented as undefined)",
+			"engine.WithFirst is not configured here: the pre-VM function runs once per engine instance by design, so its invocations (and the last-value it leaves behind) differ between a long-lived engine and an engine per request; C06, C08 and C20 explore it",
 		},
 		Real:       append(append([]string{}, realAll...), "db/fs (compiled against the simulated os)", "db/postgres"),
 		Stub:       append(append([]string{}, stubAll...), "OS filesystem (simfs)", "Postgres server (pgfake)"),
